@@ -43,7 +43,9 @@ impl Parameters {
 
         let doc = &docs[0];
         let params = &doc["opw_kinematics_geometric_parameters"];
-        let dof = params["dof"].as_i64().unwrap_or(6) as i8;
+        // 'dof' is documented (and written by to_yaml) as a top level entry; the nested
+        // location inside the geometric parameters is also supported.
+        let dof = params["dof"].as_i64().or_else(|| doc["dof"].as_i64()).unwrap_or(6) as i8;
         let mut sign_corrections = Self::read_sign_corrections(&doc["opw_kinematics_joint_sign_corrections"])?;
         if dof == 5 {
             // Block J6 at 0 by default for 5DOF robot.
